@@ -1,2 +1,3 @@
 SPECIFICATION Spec
-INVARIANTS TypeOK AtMostOneNormal ActiveExistsOnceChanged ActiveNeverDeleted ClearSelectsNormal StartStampedOnSwitch DeleteAbsent RefusedIsNoop
+\* StepClauses = ActiveNeverDeleted /\ ClearSelectsNormal /\ StartStampedOnSwitch /\ DeleteAbsent /\ RefusedIsNoop
+INVARIANTS TypeOK AtMostOneNormal ActiveExistsOnceChanged StepClauses
